@@ -81,7 +81,25 @@ pub fn run_inprocess(seed: u64, cases: u32, len: (usize, usize), stats: &mut Sta
     let judge_c = std::cell::RefCell::new(judge);
     let res = r.run(&strat, |c| {
         let mut j = judge_c.borrow_mut();
-        let r = if failed.get() { (*j)(&c, &mut scratch.borrow_mut()) } else { (*j)(&c, &mut **stats_c.borrow_mut()) };
+        // panics of the code under test are caught inside the Sut adapter; a panic that reaches this
+        // point is a defect of the harness itself: infrastructure error (exit 2), never a violation
+        let r = std::panic::catch_unwind(std::panic::AssertUnwindSafe(|| {
+            if failed.get() {
+                (*j)(&c, &mut scratch.borrow_mut())
+            } else {
+                (*j)(&c, &mut **stats_c.borrow_mut())
+            }
+        }));
+        let r = match r {
+            Ok(r) => r,
+            Err(e) => {
+                let m = e.downcast_ref::<&str>().map(|s| s.to_string()).or(e.downcast_ref::<String>().cloned()).unwrap_or_default();
+                let loc = crate::preflight::LAST_PANIC_LOCATION.lock().map(|g| g.clone()).unwrap_or_default();
+                let _ = std::fs::write(format!("{VERIF_DIR}/work/harness_panic.json"), serde_json::to_string(&json!({"choices": c, "message": m, "location": loc})).unwrap_or_default());
+                eprintln!("HARNESS-PANIC: the judge panicked ({m}) at {loc}; choices saved to work/harness_panic.json");
+                std::process::exit(2);
+            }
+        };
         match r {
             Ok(()) => Ok(()),
             Err(m) => {
